@@ -1,5 +1,6 @@
 //! Shared fixtures: deterministic keys, epochs, hashes, a small async executor.
 
+pub mod blocks;
 pub mod epoch;
 pub mod net;
 pub mod votes;
